@@ -85,8 +85,11 @@ func C01(ctx *core.Ctx, r *core.Report) {
 	c01RecursionGuard(ctx, r)
 	c01ConfigInheritance(ctx, r)
 	c01InsertsACopy(ctx, r)
+	c02OwnPrefixIsLocal(ctx, r)
 	impliedCasePerNode(ctx, r)
 	c01SubmoduleMergeComplete(ctx, r)
+	r.Count("instances:lost-update(read-modify-write of a field)", lostUpdate(ctx, r, scopeFuncs(ctx, "meta", "resolver.go", "compile.go", "builder.go", "core.go", "core_gen.go")))
+	r.Count("instances:textual-order-kept(sort calls examined)", textualOrderKept(ctx, r, scopeFuncs(ctx, "meta")))
 	// a refine (or any sibling) switched off by if-feature must not take the following ones with it
 	if check := ctx.Fn("meta", "checkFeature"); check != nil {
 		c11OffSkipsOnlyItem(ctx, r, check)
@@ -457,9 +460,11 @@ func C02(ctx *core.Ctx, r *core.Report) {
 	c02AppendOwnSlice(ctx, r)
 	c02CloneTypeUnconditional(ctx, r)
 	c02LookupScope(ctx, r)
+	c02OwnPrefixIsLocal(ctx, r)
 	c02Inheritance(ctx, r)
 	c02MixinCoverage(ctx, r)
 	c02WhenPerNode(ctx, r)
+	r.Count("instances:visited-guard-only", visitedGuardOnly(ctx, r, scopeFuncs(ctx, "meta")))
 	r.Count("instances:memo-key-complete(tables found)", memoKeyComplete(ctx, r, scopeFuncs(ctx, "meta", "compile.go", "core.go", "core_gen.go", "util.go")))
 }
 
@@ -1080,6 +1085,25 @@ func c01InsertsACopy(ctx *core.Ctx, r *core.Report) {
 		}
 	}
 	r.Floor("inserts-a-copy", n, 4)
+	// … and it is the copy that is then resolved (its own uses expanded), not the template:
+	// entering the grouping's own node expands the template in place and leaves the copy
+	// that sits in the tree with its uses unexpanded
+	enter := ctx.Method("meta", "resolver", "enter")
+	ne := 0
+	for _, spec := range []string{"meta.resolver.expandAugment", "meta.resolver.expandUses"} {
+		f := ctx.Lookup(spec)
+		if f == nil || enter == nil {
+			continue
+		}
+		for i, c := range callsStatic(f, enter, false) {
+			ne++
+			arg := c.Common().Args[len(c.Common().Args)-1]
+			verdict, what := copyOrOriginal(arg, map[ssa.Value]bool{})
+			r.Ob("inserts-a-copy", fmt.Sprintf("%s/enter#%d", core.FnName(f), i+1), ctx.Pos(c.Pos()), verdict == "copy",
+				"after inserting a copy the expansion resolves "+what+" instead of that copy: the grouping's (augment's) own node is expanded in place and the copy in the tree keeps its unexpanded uses")
+		}
+	}
+	r.Floor("inserts-a-copy(enter)", ne, 3)
 }
 
 // copyOrOriginal classifies an inserted value: "copy" (result of clone() or a
@@ -1282,4 +1306,65 @@ func onlyLoopAfter(b, h *ssa.BasicBlock) bool {
 		}
 	}
 	return false
+}
+
+// c02OwnPrefixIsLocal: a name written with the module's own prefix is a local
+// name (RFC 7950 5.5/6.4.1): findModuleAndIsExternal answers "external" only
+// where it has established that the prefix is not empty and is not the
+// module's own. An own-prefixed reference reported as external is looked up
+// among the module-level definitions only, and typedefs/groupings of the
+// enclosing scopes are not found.
+func c02OwnPrefixIsLocal(ctx *core.Ctx, r *core.Report) {
+	f := ctx.Fn("meta", "findModuleAndIsExternal")
+	if f == nil || len(f.Params) < 2 {
+		r.Fatalf("anchor meta.findModuleAndIsExternal not found")
+		return
+	}
+	prefix := f.Params[1]
+	n := 0
+	for _, ret := range core.Returns(f) {
+		ops := core.RetOperands(ret)
+		if len(ops) < 3 || !core.IsNilConst(ops[2]) {
+			continue // failures
+		}
+		for _, leaf := range core.PhiLeaves(ops[1], ret.Block()) {
+			c, isC := leaf.V.(*ssa.Const)
+			if !isC || c.Value == nil || c.Value.String() != "true" {
+				if !isC {
+					n++
+					r.Ob("own-prefix-is-local", fmt.Sprintf("meta.findModuleAndIsExternal/return#%d", n), ctx.Pos(ret.Pos()), false, "the external flag is not a constant on this path: cannot be decided")
+				}
+				continue
+			}
+			n++
+			notOwn := false
+			for _, pc := range core.PathConds(leaf.Block) {
+				bo, ok := pc.V.(*ssa.BinOp)
+				if !ok || (bo.Op != token.EQL && bo.Op != token.NEQ) {
+					continue
+				}
+				var other ssa.Value
+				if bo.X == ssa.Value(prefix) {
+					other = bo.Y
+				} else if bo.Y == ssa.Value(prefix) {
+					other = bo.X
+				} else {
+					continue
+				}
+				call, isCall := core.Strip(other).(*ssa.Call)
+				if !isCall {
+					continue
+				}
+				if cal := call.Common().StaticCallee(); cal == nil || cal.Name() != "Prefix" {
+					continue
+				}
+				if (bo.Op == token.EQL && !pc.True) || (bo.Op == token.NEQ && pc.True) {
+					notOwn = true
+				}
+			}
+			r.Ob("own-prefix-is-local", fmt.Sprintf("meta.findModuleAndIsExternal/return#%d", n), ctx.Pos(ret.Pos()), notOwn,
+				"the lookup is reported as external on a path where the prefix may be the module's own: an own-prefixed name (x:percent inside module x) is then searched among the module-level definitions only and a typedef or grouping of an enclosing container, list, grouping or rpc is 'not found'")
+		}
+	}
+	r.Floor("own-prefix-is-local", n, 1)
 }
